@@ -65,8 +65,15 @@ def tracing(w, log):
 
 def apply_traced(w, c):
     log = []
-    with tracing(w, log):
+    try:
+        cm = tracing(w, log)
+        cm.__enter__()
+    except Exception:           # private structure changed: observe nothing (informational stage only)
+        return w.apply(c), [["untraceable", []]]
+    try:
         res = w.apply(c)
+    finally:
+        cm.__exit__(None, None, None)
     if c["op"] == "new":
         log.insert(0, ["new", list(c["a"])])
     return res, log
